@@ -40,6 +40,17 @@ TA TB TA 2 120 45
     "extra.itp": """[ bondtypes ]
 TB TB 1 0.50 500
 """,
+    # a second directory whose file includes "c.itp" as well - the same include string names a different file there
+    "sub2/b2.itp": """#include "c.itp"
+[ moleculetype ]
+MD 1
+[ atoms ]
+1 TA 1 RD d1 1 0.0
+""",
+    "sub2/c.itp": """#define FROM_C2
+[ angletypes ]
+TB TA TB 2 99 11
+""",
 }
 INLINE_MC = """[ moleculetype ]
 MC 1
@@ -53,7 +64,7 @@ SLOTS = {
     "define X": "#define X",
     "ifdef X": "#ifdef X", "ifndef X": "#ifndef X", "ifdef Y": "#ifdef Y", "else": "#else", "endif": "#endif",
     "include ff": '#include "ff.itp"', "include a": '#include "a.itp"', "include sub/b": '#include  "sub/b.itp"',
-    "include extra": '#include "extra.itp"', "error": "#error something is wrong",
+    "include extra": '#include "extra.itp"', "include sub2/b2": '#include "sub2/b2.itp"', "error": "#error something is wrong",
     "comment": "; a comment line", "blank": "", "star comment": "* star",
     "inline MC": INLINE_MC.strip("\n"),
     "guarded bondtype": "[ bondtypes ]\nTA TA 1 0.44 440",
@@ -169,8 +180,8 @@ def write_tree(d, files):
         p.write_text(text)
 
 
-Q_ALPHA = ["define X", "ifdef X", "ifndef X", "ifdef Y", "else", "endif", "include a", "include sub/b", "include extra", "error", "comment", "inline MC",
-           "guarded bondtype"]
+Q_ALPHA = ["define X", "ifdef X", "ifndef X", "ifdef Y", "else", "endif", "include a", "include sub/b", "include sub2/b2", "include extra", "error",
+           "comment", "inline MC", "guarded bondtype"]
 T_ALPHA = sorted(SLOTS)
 
 
@@ -180,7 +191,8 @@ T_ALPHA = sorted(SLOTS)
                     "polyply.src.top_parser:TOPDirector.finalize", "polyply.src.top_parser:TOPDirector._molecules",
                     "polyply.src.topology:Topology.from_gmx_topfile"],
            rejects=(), selector_only=True,
-           must_cover=["read", "error directive", "malformed rejected", "conditional include taken", "conditional include skipped", "nested include", "repeated name"],
+           must_cover=["read", "error directive", "malformed rejected", "conditional include taken", "conditional include skipped", "nested include", "repeated name",
+                       "same include string in two directories"],
            outside=["#define inside a conditional, nested conditionals (rejected by the reader by design)", "macros with values in conditions",
                     "data lines that continue a section across an #include", "the GROMACS include search path"],
            cfg={"path_timeout_s": 60},
@@ -283,6 +295,8 @@ def flatten_cond(sx, B):
             sx.cover("conditional include taken" if cond else "conditional include skipped")
     if "include sub/b" in slots or "MB" in needed:
         sx.cover("nested include")
+        if "include sub2/b2" in slots:
+            sx.cover("same include string in two directories")
     if len(set(n for n, _ in mollist)) < len(mollist):
         sx.cover("repeated name")
     a, b = snapshot(real), snapshot(ref)
